@@ -27,9 +27,17 @@ def eff(fit):
     return np.array([float(v) for v in effective(fit, True)])
 
 
-def close(a, b_, scale=1.0):
+def close(a, b_, scale=None):
+    """dimensionless quantities (scale None): |a-b| <= TOL*max(1,|a|); lengths: |a-b| <= TOL*scale where scale is the
+    size of the coordinates involved (so that the test is meaningful in any unit)"""
     a, b_ = np.asarray(a, dtype=float), np.asarray(b_, dtype=float)
-    return bool(np.all(np.abs(a - b_) <= TOL * max(1.0, scale) * np.maximum(1.0, np.abs(a))))
+    if scale is None:
+        return bool(np.all(np.abs(a - b_) <= TOL * np.maximum(1.0, np.abs(a))))
+    return bool(np.all(np.abs(a - b_) <= TOL * scale))
+
+
+def close_eff(e_a, e_b, scale):
+    return close(e_a[:4], e_b[:4]) and close(e_a[4:], e_b[4:], scale)
 
 
 def margin_ok(fit, sigma, idx_resid_norms):
@@ -84,7 +92,8 @@ def run(ck):
             continue
         e0, m0 = eff(f0), np.asarray(f0['fitmask'])
         F0, s0 = e0[:4].reshape(2, 2), e0[4:]
-        scale = float(np.max(np.abs(np.array(pr['xy']))))
+        scale = float(max(np.max(np.abs(np.array(pr['xy']))), np.max(np.abs(np.array(pr['uv'])))))
+        unit = 2.0 ** pr.get('log2scale', 0)
         ck.count('geom', geom)
         ck.count('nclip', nclip)
         ck.count('clipped_points', int((~m0).sum()))
@@ -118,7 +127,8 @@ def run(ck):
                 report('permutation-changes-retained-set', pp, f1, {'perm': perm})
             else:
                 ck.discard('clipping decision within 1e-6 of the cut-off')
-        elif not (close(eff(f1), e0, scale) and close(f1['rmse'], f0['rmse']) and close(f1['mae'], f0['mae'])
+        elif not (close_eff(eff(f1), e0, scale) and close(f1['rmse'], f0['rmse'], scale) and
+                  close(f1['mae'], f0['mae'], scale)
                   and f1['eff_nclip'] == f0['eff_nclip']):
             report('permutation-changes-fit', pp, f1, {'perm': perm})
 
@@ -136,7 +146,8 @@ def run(ck):
             kind = 'weight-scaling-changes-fit'
         f2 = fit_clip(lf, pw, nclip, sigma if sigma[1] != 'std' else (sigma[0], 'rmse'), accum)
         f0w = f0 if sigma[1] != 'std' else fit_clip(lf, pr, nclip, (sigma[0], 'rmse'), accum)
-        if not (close(eff(f2), eff(f0w), scale) and close(f2['rmse'], f0w['rmse']) and close(f2['mae'], f0w['mae'])):
+        if not (close_eff(eff(f2), eff(f0w), scale) and close(f2['rmse'], f0w['rmse'], scale) and
+                close(f2['mae'], f0w['mae'], scale)):
             if np.array_equal(np.asarray(f2['fitmask']), np.asarray(f0w['fitmask'])) or (robust(f2) and robust(f0w)):
                 report(kind, pw, f2, {'c': c})
             else:
@@ -144,10 +155,10 @@ def run(ck):
 
         # 3. another rotation centre
         ck.search_evaluations += 1
-        cen = [float(rng.randrange(-100, 100)), float(rng.randrange(-100, 100))]
+        cen = [unit * float(rng.randrange(-100, 100)), unit * float(rng.randrange(-100, 100))]
         f3 = fit_clip(lf, pr, nclip, sigma, accum, center=cen)
-        if not (close(eff(f3), e0, scale + 100) and close(f3['rmse'], f0['rmse'], 1.0) and
-                close(f3['mae'], f0['mae'], 1.0)):
+        if not (close_eff(eff(f3), e0, scale + 100 * unit) and close(f3['rmse'], f0['rmse'], scale) and
+                close(f3['mae'], f0['mae'], scale)):
             if np.array_equal(np.asarray(f3['fitmask']), m0) or (robust(f3) and robust(f0)):
                 report('centre-changes-effective-map', pr, f3, {'center': cen})
             else:
@@ -156,10 +167,11 @@ def run(ck):
         # 4. similarity of both coordinate sets (exact in floats: integer lattice rotation x 2^k, translation)
         ck.search_evaluations += 1
         m_, n_ = rng.choice([(1, 1), (0, 1), (-1, 0), (1, -1), (2, 1), (1, 2), (-1, 1), (0, -1), (1, 0)])
-        k2 = rng.choice([1.0, 2.0, 0.5])
+        k2 = rng.choice([1.0, 2.0, 0.5, 2.0 ** -14, 2.0 ** -20, 2.0 ** 12])
         m_, n_ = m_ * k2, n_ * k2
         refl = rng.random() < 0.4
-        t1, t2 = float(rng.randrange(-50, 50)), float(rng.randrange(-50, 50))
+        # translation in the units of the transformed data (keeps every coordinate exactly representable)
+        t1, t2 = unit * k2 * float(rng.randrange(-50, 50)), unit * k2 * float(rng.randrange(-50, 50))
         if geom in ('shift', 'rshift') and False:
             pass
         xy2 = [[a + t1, b_ + t2] for a, b_ in simT(refl, m_, n_, pr['xy'])]
@@ -171,9 +183,9 @@ def run(ck):
         s4 = s4 + tvec - F4 @ tvec
         e4 = eff(f4)
         kk = float(np.hypot(m_, n_))
-        okp = close(e4[:4], F4.ravel(), 1.0) and close(e4[4:], s4, (scale + 100) * kk)
+        okp = close(e4[:4], F4.ravel()) and close(e4[4:], s4, (scale + 100 * unit) * kk)
         okm = np.array_equal(np.asarray(f4['fitmask']), m0)
-        oks = close(f4['rmse'], kk * f0['rmse'], 1.0) and close(f4['mae'], kk * f0['mae'], 1.0)
+        oks = close(f4['rmse'], kk * f0['rmse'], kk * scale) and close(f4['mae'], kk * f0['mae'], kk * scale)
         if not (okp and okm and oks):
             if okm or (robust(f4) and robust(f0)):
                 report('similarity-of-both-sets-not-conjugating', ps, f4,
@@ -203,8 +215,8 @@ def run(ck):
             p5 = dict(pr, xy=xy5)
             f5 = fit_clip(lf, p5, nclip, sigma, accum)
             e5 = eff(f5)
-            if not (close(e5[:4], F5.ravel(), 1.0) and close(e5[4:], s5, (scale + 100) * k5) and
-                    close(f5['rmse'], k5 * f0['rmse'], 1.0)):
+            if not (close(e5[:4], F5.ravel()) and close(e5[4:], s5, (scale + 100 * unit) * k5)
+                    and close(f5['rmse'], k5 * f0['rmse'], k5 * scale)):
                 if np.array_equal(np.asarray(f5['fitmask']), m0) or (robust(f5) and robust(f0)):
                     report('one-sided-similarity-not-composing', p5, f5, {'T': [refl, m_, n_], 't': [t1, t2]})
                 else:
